@@ -1,7 +1,8 @@
 (* C13 -- Both ends of a negotiation reach the same decision or both fail.
    Property theorems only; proofs live in lib/NegotiateProofs.v. *)
 From Coq Require Import ZArith List String.
-Require Import Verif.lib.PyLite Verif.gen.NegotiateGen Verif.lib.Negotiate Verif.lib.NegotiateProofs.
+Require Import Verif.lib.PyLite Verif.gen.NegotiateGen Verif.lib.Negotiate Verif.lib.NegotiateProofs Verif.lib.NegSplit Verif.lib.NegSplitProofs.
+Import ListNotations.
 Local Open Scope Z_scope.
 
 (* exactly one of two endpoints with distinct tub ids acts as decider *)
@@ -40,3 +41,18 @@ Print Assumptions C13_best_overlap_spec.
 Theorem C13_header_cap : forall n, header_refused n = true <-> 4096 < n.
 Proof. exact header_cap_4096. Qed.
 Print Assumptions C13_header_cap.
+
+(* "... for all chunkings of the negotiation bytes": the block splitter of Negotiation.dataReceived
+   (limits translated from the source) extracts the same header blocks, reaches the same verdict and hands
+   the same bytes to the RPC layer for every way of splitting the byte stream into packets, whatever the
+   phase handlers accept *)
+Theorem C13_split_chunk_independent : forall (ok : list Z -> bool) k (cs cs' : list (list Z)), List.concat cs = List.concat cs' ->
+  nfeed_all ok (NWait [] (S k)) cs = nfeed_all ok (NWait [] (S k)) cs'.
+Proof. exact split_chunk_independent. Qed.
+Print Assumptions C13_split_chunk_independent.
+
+(* feeding packet by packet equals feeding the whole stream at once *)
+Theorem C13_split_incremental_is_whole : forall (ok : list Z -> bool) k (cs : list (list Z)),
+  nfeed_all ok (NWait [] (S k)) cs = nfeed ok (NWait [] (S k)) (List.concat cs).
+Proof. intros; apply nfeed_all_concat; apply init_stable. Qed.
+Print Assumptions C13_split_incremental_is_whole.
